@@ -17,7 +17,7 @@ RULE = ("MODE SELECT 6/10 x 4 pages x every field over its alphabet (k deviation
         "values x 1-2 pages per list, plus lists of 3-200 pages (MODE SELECT(10): across 255 bytes up to ~6 KB; MODE SELECT(6): up to 7 pages); PERSISTENT RESERVE OUT x service actions 0-8 x 64-bit key alphabets x flag products x 0-3 TransportIDs of 6 "
         "kinds x iSCSI name lengths 1..26 x format 00b/01b, REGISTER AND MOVE with/without TransportID; EXTENDED COPY LID1 and LID4 x header "
         "fields x 0-3 identification CSCD descriptors (NAA 5/6, EUI-64 8/12/16, T10 vendor id; block/tape/processor device types) x 0-3 segment "
-        "descriptors of each implemented type {00,01,02,0B,0C,0D} x inline data {0,1,5 bytes}; one caller dictionary re-used for two commands of every ordered pair of segment kinds; every list is built a second time from the same values presented differently (reversed key order in every dictionary, int-subclass integers, bytes<->bytearray) and must come out identical; and once with every list given as a one-shot iterator and once as a generator re-using one scratch dict for its elements (refusal accepted, a silently different list is not). Non-trivial = any non-default value or "
+        "descriptors of each implemented type {00,01,02,0B,0C,0D} x inline data {0,1,5 bytes}; one caller dictionary re-used for two commands of every ordered pair of segment kinds; every list is built a second time from the same values presented differently (reversed key order in every dictionary, int-subclass integers, bytes<->bytearray; every dictionary an OrderedDict / a collections.defaultdict(list) / an autovivifying defaultdict tree) and must come out identical; and once with every list given as a one-shot iterator and once as a generator re-using one scratch dict for its elements (refusal accepted, a silently different list is not). Non-trivial = any non-default value or "
         "descriptor; distinct = distinct (command, dictionary).")
 ASSUMPTIONS = [
     "oracle: vf/spec/paramlists.py decoders (positions of SPC-4 6.3/6.14/7.5/7.6.4) over vf/spec/bits.py",
@@ -63,6 +63,42 @@ def represent(x):
     if type(x) is bytearray:
         return bytes(x)
     return x
+
+
+def mappingize(x, kind):
+    """the same parameter values in other dict types callers really use: collections.defaultdict (a missing key springs into
+    existence as an empty list / a nested tree when somebody probes it), OrderedDict"""
+    import collections
+    if isinstance(x, dict):
+        if kind == "ordered":
+            d = collections.OrderedDict()
+        elif kind == "deflist":
+            d = collections.defaultdict(list)
+        else:
+            def tree():
+                return collections.defaultdict(tree)
+            d = tree()
+        for k, v in x.items():
+            d[k] = mappingize(v, kind)
+        return d
+    if isinstance(x, list):
+        return [mappingize(v, kind) for v in x]
+    return x
+
+
+def same_list_mapping(build_with, buf, cdb, tag, where):
+    out = []
+    for kind in ("ordered", "deflist", "tree"):
+        try:
+            c2 = build_with(kind)
+            b2, c2 = bytes(c2.dataout), bytes(c2.cdb)
+        except Exception as e:   # noqa: BLE001
+            out.append(("%s/mapping_type" % tag, "%s: the same values held in %s raised %s: %s"
+                        % (where, {"ordered": "OrderedDicts", "deflist": "collections.defaultdict(list) dictionaries", "tree": "autovivifying defaultdict trees"}[kind], type(e).__name__, e)))
+            continue
+        if b2 != buf or c2 != cdb:
+            out.append(("%s/mapping_type" % tag, "%s: the same values held in %s dictionaries give another list / CDB" % (where, kind)))
+    return out
 
 
 def iterize(x):
@@ -161,6 +197,7 @@ def run_case(case, obs=None):
             out.append(("%s/cdb_flags" % name, "%s: CDB pf/sp %r/%r" % (where, c["pf"], c["sp"])))
         if not out:
             out += same_list_again(lambda: CS.get_class(name)(opcode_of(name), represent(data), pf=represent(pf), sp=represent(sp)), buf, bytes(cmd.cdb), name, where)
+            out += same_list_mapping(lambda kind: CS.get_class(name)(opcode_of(name), mappingize(data, kind), pf=pf, sp=sp), buf, bytes(cmd.cdb), name, where)
             out += same_list_iter(lambda: CS.get_class(name)(opcode_of(name), iterize(data), pf=pf, sp=sp), buf, name, where)
             out += same_list_iter(lambda: CS.get_class(name)(opcode_of(name), reyield(data), pf=pf, sp=sp), buf, name + "/scratch", where)
             # a page_0 format page described with its (non-existent) subpage spelled out as 00h: the same page, the same list
@@ -231,6 +268,7 @@ def run_case(case, obs=None):
             elif kw2.get("spec_i_pt"):
                 kw2["transport_ids"] = copy.deepcopy(tids)
             out += same_list_again(lambda: CS.get_class(name)(opcode_of(name), sa, 0, 1, **represent(kw2)), buf, bytes(cmd.cdb), "prout", where)
+            out += same_list_mapping(lambda kind: CS.get_class(name)(opcode_of(name), sa, 0, 1, **{k: mappingize(v, kind) for k, v in kw2.items()}), buf, bytes(cmd.cdb), "prout", where)
             out += same_list_iter(lambda: CS.get_class(name)(opcode_of(name), sa, 0, 1, **iterize(kw2)), buf, "prout", where)
             out += same_list_iter(lambda: CS.get_class(name)(opcode_of(name), sa, 0, 1, **reyield(kw2)), buf, "prout/scratch", where)
         return out + pll_check(name, cmd, where)
@@ -287,6 +325,7 @@ def run_case(case, obs=None):
             kw2["segment_descriptor_list"] = copy.deepcopy([s_[0] for s_ in segs])
             kw2["inline_data"] = bytearray(inline)
             out += same_list_again(lambda: CS.get_class(name)(opcode_of(name), **represent(kw2)), buf, bytes(cmd.cdb), "xcopy%d" % ver, where)
+            out += same_list_mapping(lambda kind: CS.get_class(name)(opcode_of(name), **{k: mappingize(v, kind) for k, v in kw2.items()}), buf, bytes(cmd.cdb), "xcopy%d" % ver, where)
             out += same_list_iter(lambda: CS.get_class(name)(opcode_of(name), **iterize(kw2)), buf, "xcopy%d" % ver, where)
             out += same_list_iter(lambda: CS.get_class(name)(opcode_of(name), **reyield(kw2)), buf, "xcopy%d/scratch" % ver, where)
         return out + pll_check(name, cmd, where)
